@@ -88,3 +88,33 @@ Record telem := mkTelem {
 Definition telem_traces_ok (t : telem) : bool := traces_ok (e_basis (t_elem t)) (t_psi t) (t_slots t).
 Definition telem_syms_ok (t : telem) : bool :=
   signs_all_plus (t_slots t) && negb (Nat.eqb (length (t_syms t)) 0) && syms_ok (t_psi t) (t_syms t).
+
+(* ---- two cells sharing an edge that one of them traverses in the opposite direction (a quadrilateral and its
+   cyclically shifted neighbour): cell A sees the edge as slot a, cell B as slot b with parameter 1 - s; global DOF m of
+   the edge closure (vertex, vertex, edge DOFs 0..) is A's attached function m and B's attached function (perm m), where
+   perm swaps the two vertices and keeps the edge DOFs (that is how the global numbering identifies them). ---- *)
+Definition attached_trace (t : telem) (sl : slot) (m : nat) : poly :=
+  hd [] (trace_comps sl (nth (nth m (s_attached sl) 0%nat) (e_basis (t_elem t)) (BMat []))).
+Definition side_trace (t : telem) (sl : slot) (coef : list Q) (g : fsym) : poly :=
+  psum (map (fun m => pscale (nth m coef 0%Q) (psubstn (nthp (y_map g)) (attached_trace t sl (nth m (y_perm g) 0%nat))))
+            (seq 0 (length (s_attached sl)))).
+Definition dflt_slot : slot := mkSlot [] [] [] [].
+Definition shift_jump (t : telem) (a b : nat) (gid grev : fsym) (coef : list Q) : poly :=
+  psub (side_trace t (nth a (t_slots t) dflt_slot) coef gid) (side_trace t (nth b (t_slots t) dflt_slot) coef grev).
+Fixpoint is_identity_perm (l : list nat) (k : nat) : bool :=
+  match l with [] => true | x :: l' => Nat.eqb x k && is_identity_perm l' (S k) end.
+Definition is_reversal_perm (l : list nat) : bool :=
+  match l with
+  | x :: y :: l' => Nat.eqb x 1 && Nat.eqb y 0 && is_identity_perm l' 2
+  | _ => false
+  end.
+(* gid is the identity, grev is s |-> 1 - s with the induced permutation, and the two one-sided traces of the
+   coefficient vector coef differ at the point pt (facet parameter followed by values of the formal scales) *)
+Definition shift_jump_check (t : telem) (a b : nat) (gid grev : fsym) (coef pt : list Q) : bool :=
+  peqb (nthp (y_map gid) 0) (pvar 0) && is_identity_perm (y_perm gid) 0 &&
+  peqb (nthp (y_map grev) 0) (psub (pconst 1) (pvar 0)) && is_reversal_perm (y_perm grev) &&
+  negb (Nat.eqb a b) && Nat.ltb a (length (t_slots t)) && Nat.ltb b (length (t_slots t)) &&
+  negb (Qeq_bool (qeval (shift_jump t a b gid grev coef) (lpt pt)) 0).
+
+Definition shift_refuted_ok (x : telem * (fsym * fsym * list Q * list Q)) : bool :=
+  let '(t, (gid, grev, coef, pt)) := x in shift_jump_check t 1 0 gid grev coef pt.
